@@ -81,6 +81,10 @@ def gen_cases(tier, seed, gen, effort):
             for collect in (True, False):
                 be = "std" if rnd.random() < 0.5 else rnd.choice(["noteq", "noin"])
                 cases.append({"kinds": list(a), "pipe": pipe, "collect": collect, "backend": be})
+    # verbatim copies of a rule (equal objects): every copy still contributes its own queries / its own error record
+    for a in arrs[: (400 if not thorough else 4000)]:
+        if len(a) >= 2 and len(set(a)) < len(a):
+            cases.append({"kinds": list(a), "pipe": True, "collect": True, "backend": "std", "same": True})
     return cases, False
 
 
@@ -94,7 +98,7 @@ def mk_backend(pipe, collect, be="std"):
 
 def run_impl(case):
     from sigma.collection import SigmaCollection
-    docs = [rule_doc(k, i) for i, k in enumerate(case["kinds"])]
+    docs = [rule_doc(k, 0 if case.get("same") else i) for i, k in enumerate(case["kinds"])]     # "same": verbatim copies of a rule
     solo = []
     for d in docs:
         try:
@@ -127,7 +131,7 @@ def judge(case, impl, reply):
     io = impl["outcome"]
     solo = impl["solo"]
     kinds = case["kinds"]
-    key = (kinds, case["pipe"], case["collect"], case.get("backend", "std"))
+    key = (kinds, case["pipe"], case["collect"], case.get("backend", "std"), case.get("same"))
     fails = [i for i, s in enumerate(solo) if "err" in s]
     nt = 0 < len(fails) < len(kinds)
     tags = (f"n:{len(kinds)}", f"fails:{min(len(fails), 3)}", f"collect:{case['collect']}", f"pipe:{case['pipe']}", f"backend:{case.get('backend', 'std')}", f"impl:{io.split(':')[0]}")
@@ -135,7 +139,7 @@ def judge(case, impl, reply):
         if "err" in s and s["err"].startswith("other:"):
             return Verdict("violation", f"rule {kinds[i]} alone raises non-Sigma {s['err']}", nt, key, tags=tags)
     want_out = [q for s in solo if "ok" in s for q in s["ok"]]
-    want_err = [[f"{kinds[i]}_{i}", solo[i]["err"]] for i in fails]
+    want_err = [[f"{kinds[i]}_{0 if case.get('same') else i}", solo[i]["err"]] for i in fails]
     if case["collect"]:
         if io != "ok":
             return Verdict("violation", f"error collection is on but convert raised {io}: {impl.get('msg')} for {kinds}", nt, key, tags=tags)
